@@ -10,14 +10,15 @@
      16 the state mutex of a breaker (all breakers' state mutexes are one lock here: no code path holds two) *)
 From SV Require Import Model.Base Model.Locks.
 
-(** rule maps as given < controller / breaker maps < breaker state (read when a breaker is dropped under the breaker
-    map; held by every transition while it tells the listeners) < listener list < valid-rule maps (a listener may read
-    them) < generator maps < node map *)
+(** rule maps as given < controller / breaker maps < generator maps (the breaker generator map stays read-locked
+    while replaced breakers are dropped and while a custom generator runs) < breaker state (read when a breaker is
+    dropped; held by every transition while it tells the listeners) < listener list < valid-rule maps (a listener or
+    a generator may read them) < node map *)
 Definition lock_rank (l : nat) : nat :=
   match l with
   | 2 => 10 | 1 => 11 | 0 => 12
   | 5 => 20 | 4 => 21 | 3 => 22
-  | 9 => 30 | 8 => 31 | 16 => 32 | 7 => 33 | 10 => 34 | 6 => 35
+  | 9 => 30 | 8 => 31 | 6 => 32 | 16 => 33 | 7 => 34 | 10 => 35
   | 12 => 40 | 11 => 41
   | 14 => 50 | 13 => 51
   | 15 => 90
@@ -28,10 +29,12 @@ Definition lock_rank (l : nat) : nat :=
 Definition known_contexts : list (nat * list nat) :=
   [ (2, []); (1, [2]); (0, [1; 2]); (15, [0; 1; 2]); (1, []); (0, []);
     (5, []); (4, [5]); (3, [4; 5]); (4, []); (3, []);
-    (9, []); (8, [9]); (10, [8; 9]); (6, [8; 9]); (6, [8; 9; 10]); (8, []); (10, []); (6, []); (7, []);
+    (9, []); (8, [9]); (10, [8; 9]); (6, [8; 9]); (8, []); (10, []); (6, []); (7, []);
     (10, [7; 8]); (10, [7; 8; 9]);      (* a listener reads the rules while a breaker is being dropped *)
     (16, []); (7, [16]);                (* a transition, or the exit hook of a rejected probe: state, then the listeners *)
     (16, [8]); (16, [8; 9]); (7, [8]); (7, [8; 9]);   (* a breaker dropped under the breaker map: state read and released, then the listeners *)
+    (16, [6; 8; 9]); (7, [6; 8; 9]); (10, [6; 7; 8; 9]);   (* append_rule drops a replaced breaker while the generator map is still read-locked *)
+    (10, [6; 8; 9]);                    (* a custom generator reads the rules while it builds a breaker *)
     (12, []); (11, [12]); (11, []);
     (14, []); (13, [14]); (13, []);
     (15, []) ]%nat.
